@@ -76,6 +76,23 @@ const std::vector<ReEntry> &reMenu()
         // numbered back-references: the expression needs its capture groups to be numbered
         { "(ab)\\1", false, [](const QString &t) { return t.contains(QLatin1String("abab")); } },
         { "^(a|x)\\1$", false, [](const QString &t) { const QString u = stripFinalNewline(t); return u == QLatin1String("aa") || u == QLatin1String("xx"); } },
+        // character-class shorthands: without options they are the ASCII classes (a filter built from a string has no options)
+        { "^\\w+$", false, [](const QString &t) {
+             const QString u = stripFinalNewline(t);
+             if (u.isEmpty()) return false;
+             for (QChar c : u) if (!isWord(c)) return false;
+             return true; } },
+        { "\\d", false, [](const QString &t) { for (QChar c : t) if (c.unicode() >= '0' && c.unicode() <= '9') return true; return false; } },
+        { "a\\sb", false, [](const QString &t) {
+             for (int i = 0; i + 2 < t.size(); i++) {
+                 const ushort m = t[i + 1].unicode();
+                 if (t[i] == 'a' && t[i + 2] == 'b' && (m == ' ' || (m >= 9 && m <= 13))) return true;
+             }
+             return false; } },
+        { "na\\Wve", false, [](const QString &t) {
+             for (int i = 0; i + 4 < t.size(); i++)
+                 if (t[i] == 'n' && t[i + 1] == 'a' && !isWord(t[i + 2]) && !t[i + 2].isSurrogate() && t[i + 3] == 'v' && t[i + 4] == 'e') return true;
+             return false; } },
     };
     return m;
 }
@@ -93,11 +110,18 @@ QJsonObject generate()
         QStringLiteral("debug: x"), QStringLiteral("abc"), QStringLiteral("\n"), QStringLiteral("line1\nline2"), QStringLiteral("ok_"),
         QStringLiteral("done"), QStringLiteral("7"), QStringLiteral("warn"), QStringLiteral("undone\n\n"),
         QStringLiteral("abab"), QStringLiteral("xabab."), QStringLiteral("aba"), QStringLiteral("aa"), QStringLiteral("ax"),
+        // letters, digits and spaces outside ASCII next to \w \d \s \b \W
+        QStringLiteral("caf") + QChar(0x00e9), QString(QChar(0x0663)), QStringLiteral("a") + QChar(0x00a0) + QStringLiteral("b"), QStringLiteral("a b"),
+        QStringLiteral("a") + QChar(0x2003) + QStringLiteral("b"), QStringLiteral("na") + QChar(0x00ef) + QStringLiteral("ve"), QStringLiteral("na-ve"),
+        QStringLiteral("ok") + QChar(0x0439), QChar(0x00e9) + QStringLiteral("ok"), QStringLiteral("abc_1"), QStringLiteral("x") + QChar(0x0967),
     };
     QJsonArray pool;
     int np = pick(1, 5);
+    const int reChoice = pick(0, int(reMenu().size()) - 1);
     for (int i = 0; i < np; i++) {
-        if (chance(75)) {
+        if (i == 0 && reChoice >= int(reMenu().size()) - 5 && chance(60)) { // shorthand-class expressions meet the texts that tell ASCII from Unicode classes
+            pool.append(strToJson(fixed[size_t(pick(int(fixed.size()) - 11, int(fixed.size()) - 1))]));
+        } else if (chance(75)) {
             pool.append(strToJson(fixed[size_t(pick(0, int(fixed.size()) - 1))]));
         } else {
             StrOpts o;
@@ -124,7 +148,7 @@ QJsonObject generate()
     c["typesA"] = pick(0, 31);
     c["sharedScoped"] = chance(50); // unscoped sub-pipelines leave the first number on the message when the shared counter sees it again
     c["typesB"] = pick(0, 31);
-    c["re"] = pick(0, int(reMenu().size()) - 1);
+    c["re"] = reChoice;
     return c;
 }
 
